@@ -145,7 +145,7 @@ func (s *server) closes(addr string) int {
 	return s.onClose[addr]
 }
 
-func runCase(s *server, useTLS bool, id string, stream []byte, cuts []int, expectClose, closeNow bool) (handled []string, closed bool, onclose int, err error) {
+func runCase(s *server, useTLS bool, id string, stream []byte, cuts []int, wantN int, expectClose, closeNow bool) (handled []string, closed bool, onclose int, err error) {
 	var c net.Conn
 	if useTLS {
 		d := &net.Dialer{Timeout: 2 * time.Second}
@@ -181,6 +181,11 @@ func runCase(s *server, useTLS bool, id string, stream []byte, cuts []int, expec
 		}
 		time.Sleep(50 * time.Millisecond)
 		return s.paths(id), false, s.closes(local), nil
+	}
+	// a loaded machine may take long to run the handlers: give the expected requests up to 4 s to arrive (one-sided:
+	// waiting longer cannot hide a surplus request, which is looked for afterwards)
+	for i := 0; i < 400 && !expectClose && len(s.paths(id)) < wantN; i++ {
+		time.Sleep(10 * time.Millisecond)
 	}
 	// read until the server closes the connection, or give up (one-sided tolerance: generous when a close is due)
 	wait := 400 * time.Millisecond
@@ -264,7 +269,7 @@ func exec(e *lp.Exec) {
 			}
 			want, errc, badurl, badproto := expected(stream, id)
 			e.P("> S %s %s %s badurl=%s badproto=%s", f[1], f[2], f[3], badurl, badproto)
-			got, closed, onclose, err := runCase(servers[mode%3], mode >= 3, id, stream, cuts, errc != 0, closeNow)
+			got, closed, onclose, err := runCase(servers[mode%3], mode >= 3, id, stream, cuts, len(want), errc != 0, closeNow)
 			if err != nil {
 				e.P("R dial-failed %v", err)
 				continue
